@@ -258,7 +258,16 @@ func runC06Names(c *Ctx) {
 			if !strings.HasPrefix(nodeT, "geojson") {
 				return
 			}
-			for _, g := range guardsAt(mi) {
+			gds := guardsAt(mi)
+			if d != dec {
+				// built in a helper: the type name was tested where the helper is called
+				for _, cs := range c.P.callSitesOf(d) {
+					if seenDec[cs.Parent()] {
+						gds = append(gds, guardsAt(cs.(ssa.Instruction))...)
+					}
+				}
+			}
+			for _, g := range gds {
 				bo, ok := g.Cond.(*ssa.BinOp)
 				if !ok || !((bo.Op == token.EQL && g.Truth) || (bo.Op == token.NEQ && !g.Truth)) {
 					continue
